@@ -140,6 +140,14 @@ class LoopMixin:
         checks = spec.opts.get('step')
         if not checks:
             return
+        saved_from = self.reads_from
+        self.reads_from = getattr(self, 'body_read_mark', 0)
+        try:
+            self._step_checks(spec, env, lid, extra, checks)
+        finally:
+            self.reads_from = saved_from
+
+    def _step_checks(self, spec, env, lid, extra, checks):
         for name, fn in checks.items():
             names = [a.arg for a in fn.node.args.args]
             kwargs = {}
@@ -173,6 +181,7 @@ class LoopMixin:
         log = []
         saved = self.write_log
         self.write_log = log
+        self.body_read_mark = len(self.read_log) if self.read_log is not None else 0
         try:
             try:
                 self.exec_block(node.body, env)
